@@ -74,7 +74,10 @@ TCall == Is("call") /\ Step /\ Ev.t = now /\ StartCall /\ op' = Ev.op /\ UNCHANG
 TRet == Is("ret") /\ Step /\ Ev.t = now /\ Return /\ op' = "" /\ UNCHANGED <<cfg, sc, cause, late>>
 
 (* ---- silent client steps, taken only when the next event needs them ---- *)
-NeedsAttempt == More /\ (Ev.e \in {"open", "connect_refused", "connect_stall"} \/ (Ev.e = "rx" /\ Ev.cmd # "Ack" /\ ~Ev.hs))
+\* (a command whose write fails is an attempt too: the terminal reports the failed write instead of the frame)
+NeedsAttempt == More /\ (\/ Ev.e \in {"open", "connect_refused", "connect_stall"}
+                         \/ (Ev.e = "rx" /\ Ev.cmd # "Ack" /\ ~Ev.hs)
+                         \/ (Ev.e = "fault" /\ Ev.kind = "write_error" /\ Ev.pos = 0 /\ phase \in {"between", "tick"}))
 TSilentStart == NeedsAttempt /\ StartStream(TmoOf(op)) /\ UNCHANGED tvars
 TSilentTick == ((NeedsAttempt /\ TickNext) \/ (More /\ TickExhausted)) /\ UNCHANGED tvars
 TSilentEnd == More /\ (Ev.e = "ret" \/ NeedsAttempt) /\ (Complete \/ Abandon) /\ UNCHANGED tvars
